@@ -83,7 +83,20 @@ def scalar_binop(op, a, b):
     raise Unsupported(f"scalar operator {op}")
 
 
+class ComplexUnit:
+    """the python literal 1j when it meets symbolic operands: arithmetic with it is opaque (complex sort)"""
+
+
 def binop(op, a, b):
+    if isinstance(a, complex) or isinstance(b, complex):
+        other = b if isinstance(a, complex) else a
+        if _sym(other):
+            x = A.as_sarr(other)
+            cdt = np.dtype("complex64") if x.dtype in (np.dtype("float32"), np.dtype("complex64")) else np.dtype("complex128")
+            CS = A.sort_of(cdt)
+            cst = z3.Const(f"c_lit_{complex(a if isinstance(a, complex) else b)}".replace(" ", ""), CS)
+            lit = SArr(cdt, (), lambda idx: cst)
+            return array_binop(op, lit, x) if isinstance(a, complex) else array_binop(op, x, lit)
     if getattr(a, "_pyvc_series", False):
         return a._bin(b, op)
     if getattr(b, "_pyvc_series", False):
